@@ -544,8 +544,7 @@ func run(c Case) pbt.Verdict {
 			}
 			noteLoad(k)
 			if err != nil {
-				// The file may have been evicted by ... nothing: it exists per model, so this is unexpected,
-				// but not something the statement speaks about; re-read the flag from disk.
+				// unexpected, but not something the statement speaks about; the flag is re-read from disk
 				classes["flag-op-error"] = true
 			}
 			// adopt the flag actually on disk (a failed write leaves the old one)
@@ -557,7 +556,7 @@ func run(c Case) pbt.Verdict {
 				}
 			}
 			if err == nil && op.Kind == "persist" && f.persist != op.Flag {
-				return pbt.Fail("persist flag not stored\n  %s: set %v, sidecar says %v", when, op.Flag, f.persist)
+				classes["flag-write-not-reflected-on-disk"] = true // not C10's business; the model follows the disk
 			}
 			f.maybeAccess(w.now())
 			w.collapse(k)
@@ -734,7 +733,8 @@ func (w *world) pass(i int, op Op, realUtil int) (msg string, classes []string, 
 		// the lower threshold the pass must not delete anything.
 		exact = op.Lower == 0 || int64(u.UsedBytes)-sumSizes > lowBytes
 		subset = true
-		nothing = op.Lower != 0 && int64(u.UsedBytes) <= lowBytes
+		// ("below which aggressive cleanup will stop": usage exactly on the threshold is left to the code)
+		nothing = op.Lower != 0 && int64(u.UsedBytes) < lowBytes
 		if nothing {
 			add("aggr-ttl-pass-already-below-lower-threshold")
 		} else if op.Lower != 0 && !exact {
@@ -769,7 +769,13 @@ func (w *world) pass(i int, op Op, realUtil int) (msg string, classes []string, 
 		return "", nil, false, false
 	}
 	if err != nil {
-		return "", []string{"pass-error"}, false, false
+		for k := 0; k < nKeys; k++ {
+			if w.m[k].exists && !w.m[k].persist && !w.onDisk(k) {
+				w.m[k].exists = false
+				w.shadowRemove(k)
+			}
+		}
+		return w.persistedIntact(when), []string{"pass-error"}, false, false
 	}
 	add("pass-" + op.Mode)
 	if evictionPossible {
@@ -857,7 +863,8 @@ func (w *world) pass(i int, op Op, realUtil int) (msg string, classes []string, 
 				// Sound under both readings of the byte target (used-lower, as documented, or
 				// total-lower, as coded): nothing is visited once total-lower bytes are gone.
 				u, _ := usage()
-				if target := int64(u.TotalBytes) - int64(u.TotalBytes*uint64(op.Lower)/100); deletedBytes >= target {
+				minB := int64(u.TotalBytes * uint64(op.Lower) / 100)
+				if target := int64(u.TotalBytes) - minB; deletedBytes >= target && int64(u.UsedBytes)-deletedBytes < minB {
 					return fmt.Sprintf("usage-driven cleanup went on after the byte target was met\n  %s: %d bytes already deleted, target %d (%d%% of %d), yet key %d was visited",
 						when, deletedBytes, target, 100-op.Lower, u.TotalBytes, k), classes, false, false
 				}
@@ -922,15 +929,15 @@ func TestMain(m *testing.M) {
 func TestProp(t *testing.T) {
 	pbt.Main(t, pbt.Spec{
 		ID: "C10",
-		Rule: "rapid draws an LRU file-map capacity (2,3,4 or 16) and 4-32 ops over 5 content-addressed file names on base.NewCASFileStoreWithLRUMap with a mock clock: create (only absent keys; mtime set to the clock), read, stat, set/clear the persist flag (SetFileMetadata / DeleteFileMetadata), clock advances from a menu around the 5-minute resolution, 45-minute and TTI/TTL boundaries, delete, reopen, and cleanup passes (normal cleanup(); ttlBasedCleanup with aggressive TTL, lower threshold and injected disk usage; customPolicyBasedCleanup with cachedInAgentPolicy and injected disk usage; cleanup() in aggressive / calm / policy mode decided by the real disk utilisation) whose TTI/TTL are absolute or placed -1/0/+1 s around the idle time / age of a chosen file. " +
-			"A reference model {exists, mtime, last access (set at creation, refreshed by an access at least 5 min after the stored value; flag writes may or may not count), persist flag} is compared with the directory after every op: (1) a persisted file keeps data, size, persist and last-access sidecars whatever was attempted (delete request must report ErrFilePersisted; LRU eviction; every pass) and reads back at the end; (2) after a normal / aggressive-without-lower-threshold pass every unprotected file with now-lastAccess > TTI or (TTL>0 and now-mtime > TTL) is gone and, when no LRU eviction can happen during the scan (files <= capacity), every other file is still there; with a lower threshold only the second half is required; (3) the usage-driven pass visits files in non-decreasing (tier, last access) order where tier 0: |access-mtime|>45 min, 1: >1 s, 2: otherwise, never skips a file that precedes a visited one, and does not stop while used-deleted is above the lower threshold. " +
+		Rule: "rapid draws an LRU file-map capacity (2,3,4 or 16), a setup prefix (2-4 creates, usually one persist) and 4-36 further ops over 5 content-addressed file names on base.NewCASFileStoreWithLRUMap with a mock clock: create (only absent keys; mtime set to the clock), read (now or after a drawn delay), stat, set/clear the persist flag (SetFileMetadata / DeleteFileMetadata), clock advances from a menu around the 5-minute resolution, 45-minute and TTI/TTL boundaries, delete, reopen, and cleanup passes (normal cleanup(); ttlBasedCleanup with aggressive TTL, lower threshold and injected disk usage; customPolicyBasedCleanup with cachedInAgentPolicy and injected disk usage; cleanup() in aggressive / calm / policy mode decided by the real disk utilisation) whose TTI/TTL are absolute or placed -1/0/+1 s around the idle time / age of a chosen file. " +
+			"A reference model {exists, mtime, last access (set at creation, refreshed by an access at least 5 min after the stored value; flag writes may or may not count), persist flag} is compared with the directory after every op: (1) a persisted file keeps data, size, persist and last-access sidecars whatever was attempted (delete request must report ErrFilePersisted; LRU eviction; every pass) and reads back at the end; (2) after a normal / aggressive-without-lower-threshold pass every unprotected file with now-lastAccess > TTI or (TTL>0 and now-mtime > TTL) is gone and, when no LRU eviction can happen during the scan (files <= capacity), every other file is still there; with a lower threshold only the second half is required; (3) the usage-driven pass visits files in non-decreasing (tier, last access) order where tier 0: |access-mtime|>45 min, 1: >1 s, 2: otherwise, never skips a file that precedes a visited one, does not stop while used-deleted is above the lower threshold and does not go on once total-lower bytes are deleted and usage is below the threshold. " +
 			"evaluations = judged cleanup passes; non-trivial = a persisted file survived a delete request, an LRU eviction from the map or a pass in which it met the expiry rule, and some pass deleted a file; distinct by case hash",
 		Assumptions: []string{
 			"reference model written from the property statement, the CleanupConfig field documentation, the cachedInAgentPolicy comments (1 s / 45 min heuristics) and the FileMap documentation (5-minute last-access resolution)",
 			"file mtimes are set with Chtimes to mock-clock values right after creation; clock values are whole seconds (the last-access sidecar stores seconds)",
 			"which plain file an LRU eviction removes is not asserted; the 'nothing else was removed' half of rule (2) is only asserted when the number of files is within the map capacity",
 			"an LRU shadow of the map order is used only to label classes, never by the oracle",
-			"the byte target of the usage-driven pass is only checked against stopping too early (statement is silent on over-deletion)",
+			"the byte target of the usage-driven pass is read loosely: stopping too early is judged against the documented target (used - lower%), going on too long against the coded one (total - lower%); usage exactly on a threshold is never judged",
 		},
 		Parts: []pbt.Part{pbt.NewPart("store", 1, gen, run)},
 	})
